@@ -244,6 +244,39 @@ def normImage (r : ℕ → ℚ) (E : ℕ → ℕ → ℕ → ℚ) (k j l : ℕ) 
 def normScores (r : ℕ → ℚ) (S : ℕ → ℕ → ℚ) (i k : ℕ) : ℚ := S i k * r k
 def normEigenvalue (r : ℕ → ℚ) (lam : ℕ → ℚ) (k : ℕ) : ℚ := lam k * r k ^ 2
 
+/-! ### The normalisation block as source-level parameters (translator target, with the loop
+constants, of `harness/c17.py:translate()` → `Generated/FcpLoop.lean`) -/
+
+/-- What the block `if self.normalize:` of `FCPTPA.fit` (l.723-730) says, syntactically. -/
+structure NormConsts where
+  /-- the test is plain truthiness `if self.normalize:` (`true`); `is True` / `== True` give `false`. -/
+  truthTest : Bool
+  /-- `norm(squared=…)`: `true` when the SQUARED norm is requested (coded: `False`). -/
+  normSquared : Bool
+  /-- `use_argvals_stand` passed truthy (coded: absent = `false`, the norm on the actual grid). -/
+  standGrid : Bool
+  /-- eigenimages are multiplied by `norm_data ^ imagePow` (coded `/ norm_data`: `-1`). -/
+  imagePow : Int
+  /-- scores are multiplied by `norm_data ^ scorePow` (coded `* norm_data`: `1`). -/
+  scorePow : Int
+  /-- eigenvalues are multiplied by `norm_data ^ eigPow` (coded `np.power(norm_data, 2)`: `2`). -/
+  eigPow : Int
+deriving Repr, DecidableEq
+
+/-- `norm_data[k]` in terms of the norm `r k`. -/
+def normDatumP (c : NormConsts) (r : ℕ → ℚ) (k : ℕ) : ℚ := if c.normSquared then r k ^ 2 else r k
+
+def normImageP (c : NormConsts) (r : ℕ → ℚ) (E : ℕ → ℕ → ℕ → ℚ) (k j l : ℕ) : ℚ :=
+  E k j l * normDatumP c r k ^ c.imagePow
+def normScoresP (c : NormConsts) (r : ℕ → ℚ) (S : ℕ → ℕ → ℚ) (i k : ℕ) : ℚ :=
+  S i k * normDatumP c r k ^ c.scorePow
+def normEigenvalueP (c : NormConsts) (r : ℕ → ℚ) (lam : ℕ → ℚ) (k : ℕ) : ℚ :=
+  lam k * normDatumP c r k ^ c.eigPow
+
+/-- The constants of the hand-written normalisation (`normImage`, `normScores`, `normEigenvalue`). -/
+def codedNormConsts : NormConsts :=
+  { truthTest := true, normSquared := false, standGrid := false, imagePow := -1, scorePow := 1, eigPow := 2 }
+
 /-- `transform(data, "NumInt")`: `einsum("ikl, jkl -> ij", data, eigenfunctions)/n_points`
 (`n_points = m₁·m₂` with normalisation, `1` without). -/
 def transformNumInt (m₁ m₂ : ℕ) (div : ℚ) (X : ℕ → ℕ → ℕ → ℚ) (E : ℕ → ℕ → ℕ → ℚ) (i k : ℕ) : ℚ :=
